@@ -64,6 +64,7 @@ func menu() []reload {
 		{Name: "dup-listener", Cfg: srv.Cfg{Services: []srv.Svc{svc([]srv.Key{kA}, tcp("127.0.0.1:9007")), svc([]srv.Key{kB}, tcp("127.0.0.1:9007"))}}},
 		{Name: "bad-cipher-0", Cfg: two([]srv.Key{kA, kBad}, []srv.Key{kC})},
 		{Name: "bad-cipher-1", Cfg: two([]srv.Key{kA}, []srv.Key{kBad})},
+		{Name: "bad-cipher-nolisten", Cfg: srv.Cfg{Services: []srv.Svc{svc([]srv.Key{kA}, tcp("127.0.0.1:9000")), {Keys: []srv.Key{kBad}}}}},
 		{Name: "bad-cipher-legacy", Cfg: srv.Cfg{Services: []srv.Svc{svc([]srv.Key{kC}, tcp("127.0.0.1:9004"))}, Legacy: []srv.Legacy{{Key: kBad, Port: 9005}}}},
 		{Name: "busy-0", Cfg: two([]srv.Key{kA}, []srv.Key{kC}), Busy: []string{"tcp/127.0.0.1:9000"}},
 		{Name: "busy-1", Cfg: two([]srv.Key{kA}, []srv.Key{kC}), Busy: []string{"udp/127.0.0.1:9002"}},
